@@ -444,6 +444,8 @@ class Check:
 
     def _write_replay(self, key, what, replay):
         d = os.path.join(VERIF, "replays", self.pid)
+        if os.path.abspath(REPO) != "/repo":   # scratch worktree run: keep real replay dir clean
+            d = os.path.join(VERIF, "scratch", "replays", self.pid)
         os.makedirs(d, exist_ok=True)
         sha = hashlib.sha1(key.encode("utf-8", "backslashreplace")).hexdigest()[:12]
         path = os.path.join(d, sha + ".json")
